@@ -952,13 +952,14 @@ func C37(c *Ctx) {
 	}
 	if fn, sites := ackSites(c); fn != nil {
 		// every loop iteration that obtained a batch reaches an acknowledgement before the next iteration / return
-		nb := Calls(fn, false, Named("NoKV.(*DB).nextCommitBatch"))
+		loop := c.Fn("", "DB.commitWorker")
+		nb := Calls(loop, false, Named("NoKV.(*DB).nextCommitBatch"))
 		c.Decide(len(nb) == 1, r1, key(fn, "single:nextCommitBatch"), fn.Pos(), 1, "one batch per iteration", "commitWorker takes batches at more than one site")
-		if len(nb) == 1 {
-			var acks []ssa.Instruction
-			for _, s := range sites {
-				acks = append(acks, s.call.(ssa.Instruction))
-			}
+		var acks []ssa.Instruction
+		for _, s := range sites {
+			acks = append(acks, s.call.(ssa.Instruction))
+		}
+		if len(nb) == 1 && fn == loop {
 			// from nextCommitBatch, can we get back to nextCommitBatch without passing an ack (other than via the nil-batch return)?
 			reach, n := CutReach(fn, nb[0].(ssa.Instruction), nb[0].(ssa.Instruction), acks, nil)
 			c.Decide(!reach, r1, key(fn, "batch->ack-before-next"), nb[0].Pos(), n, "every taken batch is acknowledged before the next one is taken", "a commitWorker path takes the next batch without acknowledging the previous one (its writers block forever)")
@@ -975,7 +976,29 @@ func C37(c *Ctx) {
 				}
 			}
 			c.Decide(!bad, r1, key(fn, "batch->ack-before-return"), nb[0].Pos(), m, "the worker returns only on a nil batch or after acknowledging", "commitWorker can return while holding an unacknowledged batch")
+		} else if len(nb) == 1 {
+			// the loop body lives in its own function: every return of it has acknowledged the
+			// batch, and the loop calls it for every non-nil batch
+			bad, m := false, 0
+			for _, r := range Returns(fn) {
+				if fn.Recover != nil && r.Block() == fn.Recover {
+					continue
+				}
+				pre, k := MustPrecede(fn, r, acks)
+				m += k
+				if !pre {
+					bad = true
+				}
+			}
+			c.Decide(!bad, r1, key(fn, "batch->ack-before-next"), fn.Pos(), m, "every taken batch is acknowledged before the next one is taken", "a commitWorker path takes the next batch without acknowledging the previous one (its writers block forever)")
+			var calls []ssa.Instruction
+			for _, ci := range Calls(loop, false, Fnm(fn)) {
+				calls = append(calls, ci.(ssa.Instruction))
+			}
+			reach, n := CutReach(loop, nb[0].(ssa.Instruction), nb[0].(ssa.Instruction), calls, nilBatchEdges(loop, nb[0]))
+			c.Decide(!reach && len(calls) > 0, r1, key(fn, "batch->ack-before-return"), nb[0].Pos(), n, "every non-nil batch is handed to the processing function", "commitWorker can take the next batch without processing the previous one")
 		}
+		fn = loop
 		// defer commitWG.Done
 		dd := 0
 		AllInstrs(fn, false, func(in ssa.Instruction) {
